@@ -113,6 +113,14 @@ MUTATIONS = {
         """            self.import_return_pointer_area_size = self.import_return_pointer_area_size.max(
                 if size.bytes >= 16 { ArchitectureSize::new(size.bytes - 8, size.pointers) } else { size });""",
         "C10", "params-15-flat,tuple-u8-u64", "stack return area of an import wrapper 8 bytes too small for a multi-value result"),
+    "seed-C10-3-flags-u16-loaded-as-u8": (
+        ABI, """                            self.stack.push(addr);
+                            self.load_intrepr(offset, Int::U16);""", """                            self.stack.push(addr);
+                            self.load_intrepr(offset, Int::U8);""",
+        "C10", "mem-*,flags-9", "seeded C10-3: 9..16-member flags lifted from memory as one byte"),
+    "seed-C11-3-droppable-borrow-record-all": (
+        C, """                    .any(|f| self.contains_droppable_borrow(&f.ty)),""", """                    .all(|f| self.contains_droppable_borrow(&f.ty)),""",
+        "C11", "handle-*", "seeded C11-3: autodrop guard misses list<record { u32, borrow }>; the trampoline drops none of the lent handles"),
     "revert-flags-lift-fix-934ab68": (
         C, None, None, "C10", "flags-33,flags-9", "git revert of 934ab68 (FlagsLift sign-extends the low word again)"),
     "revert-free-helper-fix-447cf63": (
@@ -120,6 +128,10 @@ MUTATIONS = {
     "revert-dtor-name-fix-50546d4": (
         C, None, None, "C11", "prim-u8", "git revert of 50546d4 ([dtor]multi_word export name again)"),
 }
+
+
+# roles that fail on the UNCHANGED tree (genuine findings not yet repaired / listed): never evidence that a mutation was caught
+BASELINE_ROLES = ["mem-list-record-u32-fl33/element-size"]
 
 
 def sh(cmd, **kw):
@@ -159,11 +171,11 @@ def main():
             results[name] = {"status": "not-applied", "why": msg}
             print(name, "NOT APPLIED", msg)
             continue
-        env = dict(os.environ, VERIF_REPO=WT, VERIF_EVIDENCE_DIR=os.path.join(VERIF, "work", "mut_evidence"), CGEN_ONLY=only,
-                   CGEN_WORK=os.path.join(VERIF, "work", "cgen", "mut"))
+        env = dict(os.environ, VERIF_REPO=WT, VERIF_EVIDENCE_DIR=os.path.join(VERIF, "work", "mut_evidence"), CGEN_ONLY=only)
         t0 = time.time()
         r = sh([os.path.join(VERIF, "check"), prop], env=env)
         viol = re.findall(r"^VIOLATION property=\S+ replay=(\S+)\n\s+role=(\S+)", r.stdout, re.M)
+        viol = [v for v in viol if not any(b in v[1] for b in BASELINE_ROLES)]      # findings of the unchanged tree do not count
         caught = r.returncode == 1 and bool(viol) and all(os.path.exists(v[0]) for v in viol)
         results[name] = {"status": "caught" if caught else "MISSED", "property": prop, "worlds": only, "what": desc, "exit": r.returncode,
                          "roles": [v[1] for v in viol], "replays": [v[0] for v in viol], "seconds": round(time.time() - t0, 1),
